@@ -8,10 +8,11 @@ from search.common import drive, keys_pool
 
 
 def gen(rng):
-    kind = rng.choice(["bloom", "bloom-ondisk", "cbf", "cms"])
+    kind = rng.choice(["bloom", "bloom-ondisk", "bloom-ondisk2", "cbf", "cms"])
     keys = keys_pool(rng, rng.randint(2, 20))
-    a = [(rng.choice(keys), rng.choice([1, 1, 2, 5])) for _ in range(rng.randint(0, 15))]
-    b = [(rng.choice(keys), rng.choice([1, 1, 2, 5])) for _ in range(rng.randint(0, 15))]
+    amounts = [1, 1, 2, 5] if kind != "cbf" or rng.random() < 0.6 else [1, 2**30, 2**31 - 1, 2**31, 3 * 2**29]
+    a = [(rng.choice(keys), rng.choice(amounts)) for _ in range(rng.randint(0, 15))]
+    b = [(rng.choice(keys), rng.choice(amounts)) for _ in range(rng.randint(0, 15))]
     return {"kind": kind, "est": rng.choice([1, 2, 3, 5, 10, 40]), "fpr": rng.choice([0.3, 0.1, 0.05, 0.01]), "w": rng.choice([1, 2, 3, 17, 200]), "d": rng.choice([1, 2, 3, 5]),
             "strat": rng.choice(["fnv", "md5", "custom", "dint:fnvseed"]), "a": a, "b": b, "keys": keys, "flip": rng.random() < 0.5}
 
@@ -22,15 +23,17 @@ def check(case):
     fn = strategy(case["strat"])[0]
     kind = case["kind"]
     a_ops, b_ops, keys = case["a"], case["b"], case["keys"]
-    if kind in ("bloom", "bloom-ondisk"):
+    if kind in ("bloom", "bloom-ondisk", "bloom-ondisk2"):
         try:
             mk = lambda: P.BloomFilter(est_elements=case["est"], false_positive_rate=case["fpr"], hash_function=fn)
             a, b, both = mk(), mk(), mk()
         except P.exceptions.InitializationError:
             return None
         with core.Scratch() as tmp:
-            if kind == "bloom-ondisk":
+            if kind in ("bloom-ondisk", "bloom-ondisk2"):
                 b = P.BloomFilterOnDisk(os.path.join(tmp, "b.blm"), est_elements=case["est"], false_positive_rate=case["fpr"], hash_function=fn)
+            if kind == "bloom-ondisk2":
+                a = P.BloomFilterOnDisk(os.path.join(tmp, "a.blm"), est_elements=case["est"], false_positive_rate=case["fpr"], hash_function=fn)
             for k, _ in a_ops:
                 a.add(k), both.add(k)
             for k, _ in b_ops:
@@ -41,6 +44,8 @@ def check(case):
                     return "union of same-geometry filters returned None"
                 if bytes(u.bloom) != bytes(both.bloom):
                     return "bit array of the union differs from the filter fed both streams"
+                if u.elements_added >= 0 and (bytes(u) != bytes(both)[:-12] + bytes(u)[-12:] or len(bytes(u)) != len(bytes(both))):
+                    return "export of the union differs in its cells from the export of the filter fed both streams"
                 c, both2 = mk(), mk()
                 for k, _ in a_ops:
                     both2.add(k)
@@ -55,8 +60,10 @@ def check(case):
                     if (a.check(k) or b.check(k)) and not u.check(k):
                         return f"union does not report {k!r} although an operand does"
             finally:
-                if kind == "bloom-ondisk":
+                if kind in ("bloom-ondisk", "bloom-ondisk2"):
                     b.close()
+                if kind == "bloom-ondisk2":
+                    a.close()
     elif kind == "cbf":
         try:
             mk = lambda: P.CountingBloomFilter(est_elements=case["est"], false_positive_rate=case["fpr"], hash_function=fn)
@@ -67,6 +74,8 @@ def check(case):
             a.add(k, n), both.add(k, n)
         for k, n in b_ops:
             b.add(k, n), both.add(k, n)
+        if max(both.bloom, default=0) >= 2**32 - 1:
+            return None  # saturated: outside the claim
         u = a.union(b)
         if u is None:
             return "union of same-geometry counting filters returned None"
